@@ -20,7 +20,7 @@ EXTENDS Unparse, Json
 CONSTANT MaxPre
 
 NLT == Text(<<"NL">>)
-ItemNames == {"text", "blank", "crlf", "tag", "mltag", "dqstr", "bqstr", "mlcmt", "emit", "block", "loop", "cmtline"}
+ItemNames == {"text", "blank", "crlf", "tag", "mltag", "dqstr", "bqstr", "mlcmt", "emit", "block", "loop", "cmtline", "bslnl", "bslnlbq"}
 Item(n) ==
   CASE n = "text"  -> <<Text(<<"a", "NL">>)>>
     [] n = "blank" -> <<Text(<<"NL", "NL">>)>>
@@ -29,6 +29,9 @@ Item(n) ==
     [] n = "mltag" -> <<LetNL("z", IntL(2)), NLT>>
     [] n = "dqstr" -> <<Let("s", Str(<<"x", "NL", "y", "NL">>)), Emit(IntL(3)), NLT>>
     [] n = "bqstr" -> <<Let("r", BStr(<<"NL", "w">>)), NLT>>
+    \* a line break directly after a backslash inside a string (the backslash escapes nothing but a quote)
+    [] n = "bslnl" -> <<Let("s", Str(<<"x", "BSL", "NL", "y">>)), NLT>>
+    [] n = "bslnlbq" -> <<Let("r", BStr(<<"BSL", "NL", "BSL", "NL">>)), NLT>>
     [] n = "mlcmt" -> <<Cmt(<<"c", "NL", "d">>), NLT>>
     [] n = "emit"  -> <<Emit(Str(<<"v">>)), Text(<<"NL">>)>>
     [] n = "block" -> <<Emit(If(Bool(TRUE), <<Text(<<"NL", "i", "NL">>), Emit(IntL(4)), NLT>>)), NLT>>
